@@ -10,6 +10,7 @@ import (
 	"strings"
 	"time"
 
+	"github.com/beevik/etree"
 	saml2 "github.com/russellhaering/gosaml2"
 	"github.com/russellhaering/gosaml2/types"
 
@@ -26,7 +27,7 @@ import (
 // directly and through an unsigned Response; (shape) deep / wide / mixed documents and
 // degenerate SP configurations (empty store, no keys, no clock, failing stores).
 
-var c09Families = []string{"corrupt", "cipher", "shape"}
+var c09Families = []string{"corrupt", "cipher", "shape", "mutate"}
 var c09Corrupt = []string{"truncate-xml", "bitflip-xml", "truncate-b64", "bitflip-b64", "truncate-deflate", "bitflip-deflate", "delete-byte-xml", "insert-byte-xml"}
 var c09DataAlgIDs = []string{types.MethodAES128GCM, types.MethodAES192GCM, types.MethodAES256GCM, types.MethodAES128CBC, types.MethodAES256CBC, types.MethodTripleDESCBC, "urn:unknown", ""}
 var c09CipherKinds = []string{"length-sweep", "cbc-last-byte", "cbc-all-zero", "wrapped-key-length", "wrapped-key-size", "bad-base64", "missing-parts", "cbc-pad-then-zeros", "cbc-random-blocks"}
@@ -42,7 +43,7 @@ func init() {
 			"deep/wide/mixed documents; SP configurations normal / bare / failing store / skip / no keys; oracle: the call returns, pointer results obey exactly-one-of(result, error), no panic or fatal exit; distinct = shape hash (family, kind, base, offset bucket, config, outcome classes)",
 		Directed:   c09Directed,
 		Run:        c09Run,
-		MustHit:    []string{"family=corrupt", "family=cipher", "family=shape", "truncate", "bitflip", "cipher=length-sweep", "cipher=cbc-last-byte", "cipher=cbc-all-zero", "cipher=wrapped-key-length", "cipher=cbc-pad-then-zeros", "cfg=bare(empty-store,no-keys,nil-clock)", "cfg=failing-store", "via_unsigned_response", "deep_document"},
+		MustHit:    []string{"family=corrupt", "family=cipher", "family=shape", "family=mutate", "truncate", "bitflip", "cipher=length-sweep", "cipher=cbc-last-byte", "cipher=cbc-all-zero", "cipher=wrapped-key-length", "cipher=cbc-pad-then-zeros", "cfg=bare(empty-store,no-keys,nil-clock)", "cfg=failing-store", "via_unsigned_response", "deep_document"},
 		RandomRuns: map[string]int{"quick": 2500, "thorough": 150000},
 		Assumptions: []string{"stack exhaustion / fatal runtime errors are caught through the worker crash journal and reported as violations",
 			"for []byte results (DecryptBytes) an empty plaintext with nil error is a legitimate result; the exactly-one rule is applied to pointer results"},
@@ -104,6 +105,15 @@ func c09Directed(tier string) [][]uint64 {
 	for k := uint64(5); k < 7; k++ {
 		for v := uint64(0); v < 12; v++ {
 			out = append(out, []uint64{1, k, v % 8, v % 2, v, 0})
+		}
+	}
+	// structure-aware mutations of every base
+	for base := uint64(0); base < c09Bases; base++ {
+		for i := uint64(0); i < 60; i++ {
+			if tier == "quick" && i >= 12 {
+				break
+			}
+			out = append(out, []uint64{3, i % 3, base, i % 5, i*7919 + base, i})
 		}
 	}
 	// shapes
@@ -216,7 +226,7 @@ func c09Judge(r *core.Run, family, kind string, cs []c09Call, ctx map[string]any
 
 func c09Run(r *core.Run) {
 	t := r.Tape
-	family := c09Families[t.Int(3, "c09.family")]
+	family := c09Families[t.Int(len(c09Families), "c09.family")]
 	kindRaw := t.Int(64, "c09.kind")
 	baseRaw := t.Int(64, "c09.base")
 	cfgSel := t.Int(len(c09Cfgs), "c09.cfg")
@@ -314,6 +324,88 @@ func c09Run(r *core.Run) {
 	case "cipher":
 		c09Cipher(r, s, spKey, spCert, kindRaw, baseRaw, p1, p2, cfgName, ctx)
 
+	case "mutate":
+		// structure-aware damage: 1-3 tree mutations of a genuine message
+		base := baseRaw % c09Bases
+		xmlText, mkind, err := c09Base(s, base, spKey, spCert, now)
+		if err != nil {
+			r.HarnessError("base %d: %v", base, err)
+			return
+		}
+		d := etree.NewDocument()
+		if err := d.ReadFromString(xmlText); err != nil {
+			r.HarnessError("base %d does not parse: %v", base, err)
+			return
+		}
+		rs := core.NewSplitMix(uint64(p1)*131071 + uint64(p2) + 5)
+		pick := func(n int) int { return int(rs.Next() % uint64(n)) }
+		names := []string{"Assertion", "Response", "Issuer", "Signature", "SignedInfo", "Reference", "Subject", "NameID", "Conditions", "EncryptedAssertion", "EncryptedData", "EncryptedKey", "CipherValue", "Status", "StatusCode", "SubjectConfirmationData", "KeyInfo", "X509Certificate", "LogoutRequest", "LogoutResponse", "Transforms", "DigestValue", "SignatureValue"}
+		var muts []string
+		for k := 0; k < 1+kindRaw%3; k++ {
+			all := d.Root().FindElements("//*")
+			all = append(all, d.Root())
+			e := all[pick(len(all))]
+			switch pick(10) {
+			case 0:
+				if p := e.Parent(); p != nil && e != d.Root() {
+					p.RemoveChild(e)
+					muts = append(muts, "drop:"+e.Tag)
+				}
+			case 1:
+				if p := e.Parent(); p != nil && e != d.Root() {
+					p.InsertChildAt(e.Index(), e.Copy())
+					muts = append(muts, "dup:"+e.Tag)
+				}
+			case 2:
+				e.Tag = names[pick(len(names))]
+				muts = append(muts, "rename->"+e.Tag)
+			case 3:
+				if len(e.Attr) > 0 {
+					a := e.Attr[pick(len(e.Attr))]
+					e.RemoveAttr(a.FullKey())
+					muts = append(muts, "rmattr:"+a.Key)
+				}
+			case 4:
+				if len(e.Attr) > 0 {
+					i := pick(len(e.Attr))
+					e.Attr[i].Value = []string{"", " ", "#", "0", "-1", "2.0", "true", "\x00"}[pick(7)]
+					muts = append(muts, "setattr:"+e.Attr[i].Key)
+				}
+			case 5:
+				tgt := all[pick(len(all))]
+				if e != d.Root() && tgt != e && e.Parent() != nil && !isAncestor(e, tgt) {
+					e.Parent().RemoveChild(e)
+					tgt.AddChild(e)
+					muts = append(muts, "move:"+e.Tag+"->"+tgt.Tag)
+				}
+			case 6:
+				e.SetText([]string{"", " ", "AAAA", "!!!", "-", "2030-01-01T00:00:00Z"}[pick(6)])
+				muts = append(muts, "settext:"+e.Tag)
+			case 7:
+				e.Space = []string{"", "x", "ds", "saml", "samlp", "xenc"}[pick(6)]
+				muts = append(muts, "prefix:"+e.Tag)
+			case 8:
+				for len(e.Child) > 0 {
+					e.RemoveChildAt(0)
+				}
+				muts = append(muts, "empty:"+e.Tag)
+			default:
+				c := e.CreateElement(names[pick(len(names))])
+				c.Space = e.Space
+				muts = append(muts, "addchild:"+c.Tag)
+			}
+		}
+		doc, _ := d.WriteToString()
+		r.Fault("mutate_tree")
+		enc := world.Present(doc, p2%3 == 1, 6)
+		cs := c09CallAll(s.Node, enc)
+		r.Steps += len(cs)
+		ctx["base"], ctx["base_kind"], ctx["mutations"], ctx["doc"] = base, mkind, muts, trunc(doc, 2500)
+		classes := c09Judge(r, family, "tree", cs, ctx)
+		r.Logf("mutate base=%d(%s) %v cfg=%s -> %s", base, mkind, muts, cfgName, classes)
+		r.Shape(fmt.Sprintf("mutate.b%d.%v.%s.%s", base, muts, cfgName, classes))
+		r.Sample = obs("family", family, "base", base, "base_kind", mkind, "mutations", muts, "config", cfgName, "outcomes", classes)
+
 	case "shape":
 		sh := kindRaw % 8
 		var doc string
@@ -357,6 +449,15 @@ func c09Run(r *core.Run) {
 		r.Shape(fmt.Sprintf("shape.%d.%d.%s.%s", sh, p1%10, cfgName, classes))
 		r.Sample = obs("family", family, "shape", sh, "size", depth, "config", cfgName, "outcomes", classes)
 	}
+}
+
+func isAncestor(a, b *etree.Element) bool {
+	for x := b; x != nil; x = x.Parent() {
+		if x == a {
+			return true
+		}
+	}
+	return false
 }
 
 func c09Cipher(r *core.Run, s *Std, spKey int, spCert *world.Cert, kindRaw, algRaw, p1, p2 int, cfgName string, ctx map[string]any) {
